@@ -95,6 +95,46 @@ class SplitTuples(ast.NodeTransformer):
         return node
 
 
+class SwapIndependent(ast.NodeTransformer):
+    """swap adjacent simple assignments that do not depend on each other and contain no in-place / state-changing call"""
+    @staticmethod
+    def _simple(st):
+        if not (isinstance(st, ast.Assign) and len(st.targets) == 1 and isinstance(st.targets[0], ast.Name)):
+            return None
+        for n in ast.walk(st.value):
+            if isinstance(n, ast.Call):
+                f = n.func
+                name = f.attr if isinstance(f, ast.Attribute) else (f.id if isinstance(f, ast.Name) else '')
+                if name.endswith('_') or name in ('rand', 'randn', 'randint', 'randperm', 'sample', 'print', 'warn', 'set_refpoint', 'reset',
+                                                    'step', 'update', 'update_parameter', 'loss', 'solver', 'append', 'pop', 'register_buffer'):
+                    return None
+                if isinstance(f, ast.Attribute) and isinstance(f.value, ast.Name) and f.value.id == 'self':
+                    return None
+                if isinstance(f, ast.Attribute) and isinstance(f.value, ast.Attribute) and isinstance(f.value.value, ast.Name) and f.value.value.id == 'self':
+                    return None
+            if isinstance(n, (ast.Yield, ast.Await, ast.NamedExpr)):
+                return None
+        reads = {n.id for n in ast.walk(st.value) if isinstance(n, ast.Name)}
+        return st.targets[0].id, reads
+
+    def generic_visit(self, node):
+        super().generic_visit(node)
+        for f in ('body', 'orelse', 'finalbody'):
+            v = getattr(node, f, None)
+            if isinstance(v, list) and len(v) >= 2 and isinstance(v[0], ast.stmt):
+                out = list(v)
+                i = 0
+                while i + 1 < len(out):
+                    a, b = self._simple(out[i]), self._simple(out[i + 1])
+                    if a and b and a[0] != b[0] and a[0] not in b[1] and b[0] not in a[1]:
+                        out[i], out[i + 1] = out[i + 1], out[i]
+                        i += 2
+                    else:
+                        i += 1
+                setattr(node, f, out)
+        return node
+
+
 def overlay(mode):
     ov = {}
     for dp, dn, fn in os.walk(os.path.join(ROOT, 'pypose')):
@@ -119,6 +159,9 @@ def overlay(mode):
                 elif mode == 'rettemp':
                     tree = ReturnTemp().visit(tree)
                     ast.fix_missing_locations(tree)
+                elif mode == 'swap':
+                    tree = SwapIndependent().visit(tree)
+                    ast.fix_missing_locations(tree)
                 elif mode == 'split':
                     tree = SplitTuples().visit(tree)
                     ast.fix_missing_locations(tree)
@@ -127,7 +170,7 @@ def overlay(mode):
 
 
 def main():
-    modes = sys.argv[1:] or ['unparse', 'rename', 'rettemp', 'split']
+    modes = sys.argv[1:] or ['unparse', 'rename', 'rettemp', 'split', 'swap']
     bad = 0
     for mode in modes:
         ov = overlay(mode)
